@@ -68,3 +68,24 @@ pub open spec fn layer_gone(f: FsState, layers: PathV, name: Seq<char>) -> bool 
     f.nothing_under(dir_of(layers, name)) && !f.has(toml_of(layers, name))
         && !f.has(sbom_of(layers, name, 0)) && !f.has(sbom_of(layers, name, 1)) && !f.has(sbom_of(layers, name, 2))
 }
+
+// ---------- TOML text of a file ----------
+// the unique string whose UTF-8 encoding is `b` (utf8 is injective)
+pub open spec fn text_of(b: Seq<u8>) -> Seq<char> { choose|s: Seq<char>| utf8(s) == b }
+pub open spec fn is_text(b: Seq<u8>) -> bool { exists|s: Seq<char>| utf8(s) == b }
+pub proof fn lemma_text_of(s: Seq<char>)
+    ensures text_of(utf8(s)) == s, is_text(utf8(s))
+{
+    broadcast use axiom_utf8_injective;
+    assert(utf8(s) == utf8(s));
+}
+// what a typed reader sees in the file at p (after following a final symlink)
+pub open spec fn file_toml<A>(f: FsState, p: PathV) -> Result<A, TomlDeError> {
+    toml_de::<A>(text_of(f.content(f.follow(p)->0)))
+}
+
+// ---------- SBOM files of a layer ----------
+pub open spec fn sbom_frame(f0: FsState, f1: FsState, layers: PathV, name: Seq<char>) -> bool {
+    forall|q: PathV| #![trigger f1.has(q)] #![trigger f0.has(q)] #![trigger f1.same_at(f0, q)] #![trigger f1.nodes.contains_key(q)] #![trigger f0.nodes.contains_key(q)]
+        q != sbom_of(layers, name, 0) && q != sbom_of(layers, name, 1) && q != sbom_of(layers, name, 2) ==> f1.same_at(f0, q)
+}
